@@ -101,11 +101,14 @@ _c("C03",
    "execution (any number of base operations on the copy, trailing operations on the wrapper itself, base methods as oracles -- "
    "failing ones included -- live or stale handle) changes the instance exactly as the coarse step does (C03_body_sound, induction "
    "over the body), hence is validated and atomic (C03_body_step_good); an exact characterisation of the steps that are validated "
-   "and failure-atomic (C03_step_safe, C03_setattr_exact, C03_delitem_exact, parametric in the table), its lift to histories of "
+   "and failure-atomic (C03_step_safe, C03_setattr_exact, C03_delitem_exact, parametric in the table), failure atomicity of every "
+   "step of safe shape with no condition on values or hooks (C03_failure_atomic: Structure.__setattr__ restores the previous entry "
+   "when the descriptor chain raises, __delitem__ runs __validate__ and puts the entry back; both tied to the source by "
+   "C03_src_setattr_is_model / C03_src_delitem_is_model), its lift to histories of "
    "any length by induction (C03_history, C03_failed_steps_stutter), witnesses: a constructed violating (class, state, op) for "
    "every unsafe table entry (C03_witness, strict_table_status), an in-place body exposes what a base method that fails half way "
-   "leaves behind (C03_inplace_failure_exposes_partial), and C03_refuted for the full statement, which is false of the faithful "
-   "model on the pinned tree. The model's mstep is compared with typedpy inside Coq on generated histories (all introspected "
+   "leaves behind (C03_inplace_failure_exposes_partial), and C03_refuted for the statement over every conceivable mutator shape "
+   "(refuted by a mutator that is not overridden; no entry of the current tables is of that shape). The model's mstep is compared with typedpy inside Coq on generated histories (all introspected "
    "mutators; positional, keyword, slice, one-shot-iterator, failing-iterator and key-function arguments; `x.f += v` statement "
    "forms; re-read and re-used handles) and on enumerated streams (values Python's == cannot tell from the stored one through "
    "every entry point, a value lattice over multi-field wrappers, the same lattice on one instance after events on OTHER "
@@ -454,7 +457,9 @@ _c("C11",
    "of the values read back (C11_equivalence, C11_eq_fieldwise); for canonical spellings equal instances have the same string hence "
    "hash (C11_hash_char); copy/deepcopy equal with the same string, pickle under pickle_safe (C11_copy_eq); the unconditional "
    "eq=>hash and pickle statements are Definitions refuted by witnesses (insertion order, numeric spelling, set vs frozenset, None vs "
-   "absent, lost internal state). (2) Object level, a heap model with object identity (Struct/CopyHeap.v): CPython's deepcopy of the "
+   "absent, lost undeclared attributes); the unpickled copy keeps `_none_fields` and is `_instantiated` again (C11_unpickled_guard, "
+   "C11_unpickled_hook_runs; the source's __getstate__ / __setstate__ are translated and proved to yield pickle_rt: "
+   "C11_src_unpickle_is_model). (2) Object level, a heap model with object identity (Struct/CopyHeap.v): CPython's deepcopy of the "
    "built-in containers, Structure.__deepcopy__ and the wrappers' __deepcopy__ PARAMETRISED by a copy policy that "
    "harness/genmods/copy_sites.py re-reads from the source on every run (Gen/CopySites.v: what is deep-copied, what is re-used, under "
    "which isinstance test; fails closed to UnknownPol/TOther): under a policy that re-uses only values of deeply immutable types the "
